@@ -1,5 +1,5 @@
 (* Small arithmetic helpers shared by the models. *)
-From Coq Require Export List NArith Lia Bool.
+From Coq Require Export List NArith Arith Lia Bool.
 Export ListNotations.
 Open Scope N_scope.
 
